@@ -125,6 +125,58 @@ def _close(a, b, tol):
     return abs(a - b) <= tol
 
 
+def uncalled_return_check(ops, n, zero, trimming, tol):
+    """At every BetCollection the chips not collected from a player who is
+    not the lone survivor are the uncalled part of the largest bet: only a
+    player whose bet strictly exceeds every other bet of the round (folded
+    players' bets included - they are in the pot) gets anything back, and he
+    gets back exactly the excess over the second largest bet; untrimmed antes
+    are never returned.  Returns (key, message) or None."""
+    rnd = [zero] * n
+    live = [True] * n
+    ante_stage = True
+    for idx, o in enumerate(ops):
+        k = op_kind(o)
+        if k in ('post_ante', 'post_blind_or_straddle', 'post_bring_in',
+                 'check_or_call'):
+            rnd[o.player_index] += o.amount
+            if k != 'post_ante':
+                ante_stage = False
+        elif k == 'complete_bet_or_raise_to':
+            rnd[o.player_index] = o.amount
+            ante_stage = False
+        elif k == 'fold':
+            live[o.player_index] = False
+        elif k in ('deal_hole', 'deal_board', 'burn_card'):
+            ante_stage = False
+        elif k == 'collect_bets':
+            survivor = live.index(True) if sum(live) == 1 else None
+            top = sorted(rnd)
+            second = top[-2]
+            for i in range(n):
+                if i == survivor:
+                    continue
+                back = rnd[i] - o.bets[i]
+                if ante_stage and not trimming:
+                    want = zero
+                elif rnd[i] > second:
+                    want = rnd[i] - second
+                else:
+                    want = zero
+                if not _close(back, want, tol):
+                    return (
+                        'folded_player' if not live[i] else
+                        'ante' if ante_stage else 'live_player',
+                        f'operation #{idx} {o!r}: player {i} bet {rnd[i]} in'
+                        f' the round (all bets {rnd}, live {live}) and'
+                        f' {o.bets[i]} was collected: {back} returned,'
+                        f' uncalled part is {want}')
+            rnd = [zero] * n
+            if survivor is not None:
+                break
+    return None
+
+
 def check(case, stats):
     cfg = case['config']
     obs = Obs()
@@ -169,6 +221,13 @@ def check(case, stats):
                         op_kind(x) == 'post_blind_or_straddle'
                         for x in ops[:ops.index(o)]):
                     ante_part[i] += o.bets[i]
+    # (0) each bet collection returns exactly the uncalled part of the
+    # largest bet: round bets are rebuilt from the posting/betting records,
+    # independently of the BetCollection records
+    bad = uncalled_return_check(ops, n, zero, s.ante_trimming_status, tol)
+    if bad:
+        out.append(V(ID, 'uncalled_bet_return', bad[0], bad[1]))
+        return out
     ref_pots = refaward.build_pots(collected, ante_part, live,
                                    s.ante_trimming_status)
     orphan = refaward.build_pots.orphan
